@@ -1,9 +1,32 @@
 import PromModel.Suites.ApiJsonSuite
+import PromProofs.ApiJson
 /-
-  C51 — Query API JSON encodes values losslessly.  Property theorems only.
+  C51 — Query API JSON encodes values losslessly.  Property theorems only; lemmas are in
+  PromProofs/ApiJson.lean.  Model: PromModel/Api/Json.lean.
 -/
 namespace Prom.C51
 open Prom.Api.Json
+
+/-- Timestamps: for every int64 except MinInt64 the text `MarshalTimestamp` writes, read as an exact
+    decimal number of seconds, is `t/1000` — i.e. the millisecond value is recovered exactly. -/
+theorem timestamp_roundtrip (t : Int) (h1 : MinI64 < t) (h2 : t ≤ MaxI64) :
+    parseTs (marshalTimestamp t) = some t := by
+  have := pTs_marshalTimestamp t h1 h2 [] rfl
+  simp only [List.append_nil] at this
+  simp [parseTs, this]
+
+example : MinI64 < (-9223372036854775807 : Int) ∧ (-9223372036854775807 : Int) ≤ MaxI64 := by decide
+
+/-- The same inside a larger document: any continuation that does not extend the number (`,` `]` …). -/
+theorem timestamp_roundtrip_in_context (t : Int) (h1 : MinI64 < t) (h2 : t ≤ MaxI64) (rest : Bytes)
+    (hr : tsEnd rest = true) : pTs (marshalTimestamp t ++ rest) = some (.exact t, rest) :=
+  pTs_marshalTimestamp t h1 h2 rest hr
+
+/-- The excluded point: at MinInt64 the negation wraps, and the code writes two minus signs and a
+    negative "fraction" — not a JSON number (the API's time range excludes this timestamp). -/
+theorem timestamp_minint64_witness :
+    marshalTimestamp MinI64 = kw "--9223372036854775.00-808" ∧ parseTs (marshalTimestamp MinI64) = none := by
+  constructor <;> decide
 
 /-- The boundary code written by `MarshalHistogram` determines both inclusiveness flags, and every
     documented code 0–3 is produced by exactly one flag pair. -/
@@ -15,5 +38,11 @@ theorem boundaries_code_bijective :
   match c, h with
   | 0, h | 1, h | 2, h | 3, h => simp [parseBoundaries] at h; obtain ⟨rfl, rfl⟩ := h; rfl
   | n + 4, h => simp [parseBoundaries] at h
+
+/-- Label names and values: the escaping `Stream.WriteString` applies (quotes, backslashes, control
+    characters as `\n \r \t \u00XX`, everything else — including `<>&`, DEL and all bytes ≥ 0x80 —
+    verbatim) is inverted by JSON string unescaping, for every byte string. -/
+theorem escape_unescape (s rest : Bytes) : pString (writeString s ++ rest) = some (s, rest) :=
+  pString_writeString s rest
 
 end Prom.C51
